@@ -43,6 +43,7 @@ type Scenario struct {
 	CleanupMarks     bool                  // the handler marks, in Cleanup, everything its claims were delivered (documented use of Cleanup)
 	Follower         bool                  // another member leads the group; this member gets FollowerParts
 	FollowerParts    []int32
+	GrowBy           int // the topic gains this many partitions between the first and the second Consume call (LogLen / Stored hold their entries too)
 }
 
 type HEvent struct {
@@ -70,6 +71,7 @@ type Result struct {
 	StoreEnd  map[int32]int64
 	Life      []string // lifecycle hook events (C12 only)
 	LifePanic []string // panics recovered in sarama's own goroutines (C12 only)
+	GrownAtSeq int     // coordinator sequence number at which the topic grew (0 = it did not)
 }
 
 var codes = []sarama.KError{sarama.ErrRebalanceInProgress, sarama.ErrUnknownMemberId, sarama.ErrIllegalGeneration,
@@ -164,6 +166,22 @@ func Gen(seed uint64, focus string) *Scenario {
 			}
 		}
 	}
+	// the subscribed topic grows between two Consume calls (own PRNG: the other choices of the scenario are unchanged)
+	// (focus C08 only: the end-to-end stream of the C08 check; the C07 / C12 scenario streams are as they were)
+	if g := hlib.NewRand(seed ^ 0x67726f777468); focus == "C08" {
+		sc.Follower, sc.FollowerParts, sc.Ghosts, sc.CloseInSession = false, nil, 0, -1
+		for sc.Sessions < 3 {
+			sc.Sessions++
+			sc.Behaviour = append(sc.Behaviour, "drain")
+			sc.EarlyAfter = append(sc.EarlyAfter, 0)
+			sc.CancelAfterMs = append(sc.CancelAfterMs, g.Pick(0, 5, 15))
+		}
+		sc.GrowBy = g.Range(1, 3)
+		for i := 0; i < sc.GrowBy; i++ {
+			sc.LogLen = append(sc.LogLen, g.Range(0, 6))
+			sc.Stored = append(sc.Stored, -1)
+		}
+	}
 	return sc
 }
 
@@ -213,7 +231,7 @@ func (sc *Scenario) String() string {
 	}
 	return fmt.Sprintf("seed=%d brokers=%d parts=%d log=%v stored=%v ghosts=%d strat=%s oldest=%v auto=%v retry=%d ver=%s script=[%s] sessions=%d beh=%v early=%v cancel=%v closeIn=%d",
 		sc.Seed, sc.Brokers, sc.Partitions, sc.LogLen, sc.Stored, sc.Ghosts, sc.Strategy, sc.InitialOldest, sc.AutoCommit, sc.RetryMax, sc.Version,
-		strings.Join(fs, ","), sc.Sessions, sc.Behaviour, sc.EarlyAfter, sc.CancelAfterMs, sc.CloseInSession) + fmt.Sprintf(" retention=%dh follower=%v/%v cleanupMarks=%v offsetFault=%v finalCommitFault=%v", sc.Retention, sc.Follower, sc.FollowerParts, sc.CleanupMarks, sc.OffsetFaultAt, sc.FinalCommitFault)
+		strings.Join(fs, ","), sc.Sessions, sc.Behaviour, sc.EarlyAfter, sc.CancelAfterMs, sc.CloseInSession) + fmt.Sprintf(" retention=%dh follower=%v/%v cleanupMarks=%v offsetFault=%v finalCommitFault=%v", sc.Retention, sc.Follower, sc.FollowerParts, sc.CleanupMarks, sc.OffsetFaultAt, sc.FinalCommitFault) + fmt.Sprintf(" growBy=%d", sc.GrowBy)
 }
 
 type handler struct {
@@ -487,6 +505,19 @@ func Run(sc *Scenario) *Result {
 		mu.Lock()
 		res.Events = append(res.Events, e)
 		mu.Unlock()
+		if sNo == 0 && sc.GrowBy > 0 {
+			// no Consume call is running: the next one refreshes the metadata of its topics before it joins
+			sim.AddPartitions("t", sc.GrowBy)
+			for p := sc.Partitions; p < sc.Partitions+int32(sc.GrowBy); p++ {
+				for i := 0; i < sc.LogLen[p]; i++ {
+					sim.AppendRaw("t", p, []byte(fmt.Sprintf("k%d", i)), []byte(fmt.Sprintf("v%d.%d", p, i)), nil, time.Unix(1600000000+int64(i), 0))
+				}
+				res.Logs[p] = sc.LogLen[p]
+			}
+			mu.Lock()
+			res.GrownAtSeq = sim.GroupSeq()
+			mu.Unlock()
+		}
 	}
 	if !closed {
 		cdone := make(chan error, 1)
@@ -619,7 +650,7 @@ func Check(res *Result) []Fail {
 	fenced := false
 	var assigned map[string][]int32
 	store := map[int32]int64{}
-	for p := int32(0); p < sc.Partitions; p++ {
+	for p := int32(0); int(p) < len(sc.Stored); p++ {
 		store[p] = -1
 		if sc.Stored[p] >= 0 {
 			store[p] = sc.Stored[p]
@@ -658,6 +689,20 @@ func Check(res *Result) []Fail {
 					}
 					if r.Verdict == sarama.ErrNoError && !r.Dropped {
 						assigned = r.Assigned
+						if res.GrownAtSeq > 0 && r.Seq > res.GrownAtSeq && sc.Ghosts == 0 && !sc.Follower {
+							// the topic grew while no Consume call was running; this generation was joined by a Consume call
+							// that refreshed the topic's metadata first: the plan of the only member holds every partition
+							have := map[int32]bool{}
+							for _, p := range r.Assigned["t"] {
+								have[p] = true
+							}
+							for p := int32(0); p < sc.Partitions+int32(sc.GrowBy); p++ {
+								if !have[p] {
+									add("C08:plan-misses-partition-of-subscribed-topic", "generation %d (joined after the topic grew from %d to %d partitions): the leader's plan gives its only member %v, partition %d is assigned to nobody", r.Generation, sc.Partitions, sc.Partitions+int32(sc.GrowBy), r.Assigned["t"], p)
+									break
+								}
+							}
+						}
 						for p, o := range store {
 							sessionStore[p] = o
 						}
